@@ -1555,7 +1555,7 @@ func (g *c16G) badCase() (c16BadCase, bool) {
 func init() {
 	run.Register(&run.Prop{
 		ID: "C16", Level: "fault_enumeration", MinNontrivial: 1000,
-		Rule: "every case is a set of runs of the real cmd/gojq on generated bytes (random multi-document JSON text: scalars of every spelling, nested containers, duplicate-free objects in arbitrary key order, any legal white space between tokens and documents including none, spread over stdin (pipe or regular file) and up to three files; raw text with CRLF, missing final newline, lines longer than the read buffer; argument lists with colliding names over all four named-flag kinds and mixed --args/--jsonargs segments, options placed before/after the query and after `--`). Expected values come from the harness' own scanner/event model over the bytes it generated, plus a second run with the in-language equivalent (-s . / -n [inputs]; --stream / tostream / fromstream(inputs); flags / literal `as` bindings; -f file / the text). Fault enumeration: a stream of 1-3 documents is cut at EVERY byte under --stream (pipe, regular-file stdin, file argument): the emitted events must be a prefix of the events whose tokens lie in the prefix, contain every event whose token ended >= 1 byte before the cut, then exactly one error and status 5 - unless the prefix is itself a complete stream (then all events, no error). Malformed documents (10 fault kinds at scanner-known offsets) are run under ., -s ., -n [inputs], -n inputs, guarded input calls and --stream. Non-trivial = distinct (argv, stdin/files) case with at least one document/line/binding (for cuts: every distinct non-empty prefix).",
+		Rule: "every case is a set of runs of the real cmd/gojq on generated bytes (random multi-document JSON text: scalars of every spelling, nested containers, duplicate-free objects in arbitrary key order, any legal white space between tokens and documents including none, spread over stdin (pipe or regular file) and up to three files; raw text with CRLF, missing final newline, lines longer than the read buffer; argument lists with colliding names over all four named-flag kinds and mixed --args/--jsonargs segments, options placed before/after the query and after `--`). Expected values come from the harness' own scanner/event model over the bytes it generated, plus a second run with the in-language equivalent (-s . / -n [inputs]; --stream / tostream / fromstream(inputs); flags / literal `as` bindings; -f file / the text). Fault enumeration: a stream of 1-3 documents is cut at EVERY byte under --stream (pipe, regular-file stdin, file argument): the emitted events must be a prefix of the events whose tokens lie in the prefix, contain every event whose token ended >= 1 byte before the cut, then exactly one error and status 5 - unless the prefix is itself a complete stream (then all events, no error). Malformed documents (10 fault kinds at scanner-known offsets) are run under ., -s ., -n [inputs], -n inputs, guarded input calls and --stream. Non-trivial = distinct (argv, stdin/files) case with at least one document/line/binding (for cuts: every distinct non-empty prefix). Also: c16.manyfiles (90 and 300 input files in 12 input modes under a descriptor limit of 24/32, compared with the run without the limit), c16.argtext (texts of --argjson/--jsonargs that are / are not exactly one JSON value), c16.special (/dev/stdin, a named pipe, a symbolic link and /dev/null among the input files).",
 		Assumptions: []string{
 			"each file argument is its own JSON text stream (cli/inputs.go filesInputIter): after a malformed document in a file that is not the last one, both 'nothing more' and 'the later files' values' are accepted; in the malformed file itself nothing may follow the error",
 			"an event whose token ends exactly at a cut/fault (or a number cut in the middle whose prefix is a number) may or may not be emitted: the statement fixes only the events before the cut",
